@@ -20,6 +20,10 @@ CLAIMED = {
    text="Contracts on the pipeline state machine (complete, completeStage, executeStage), the pipeline entry point and its two stage-completion closures, baseStage.Execute and its run closure, workerPool.execTask (including the path through a recovered panic) and LeafExecuteContext.SendResponse are discharged: the completion callback is invoked at most once under arbitrary interference on the two atomics (invariant cbCount==1 ==> completed, compare-and-swap token), it carries an error whenever a stage failed (precondition of the callback), children are registered before their parent completes, a stage run invokes exactly one handler, a panicking pooled task is routed once with a non-nil error to the panic handler which Execute sets to the stage's error handler, a panic reaching pipeline.Execute completes with an error, a leaf request produces at most one response.",
    note="Ghost call trace of function values (calls/lastnonnil); client code (Stage implementations, the completion callback, the transport) is assumed to meet its declared contract and not to re-enter the state machine; that failures of concurrently completing stages are visible to the thread that brings pending to zero rests on the ordering of the pending counter (assumed); stage ids (uuid) are assumed unique; the pool's dispatcher/worker goroutines and channels are not verified (a submitted task runs at most once is assumed); liveness (never none) is not decided.",
    design="4/C19"),
+ "C18": dict(
+   text="Contracts on replicaIndex (in range, never the first replica, definition ridx) with the lemma that ridx is injective in the replica number, Replica.Contain, ShardAssignment.AddReplica (no duplicate, appended last, other shards and replica lists untouched), replicaLeaderElector.ElectLeader (leader is the first alive replica of the shard; error exactly when the shard is unknown or has no alive replica), assignReplicasToStorageNodes / ShardAssignment / ModifyShardAssignment (exactly the requested shard ids are added, existing shards and their replica lists are untouched, requests with replica factor above the number of nodes or non-positive counts are refused and change nothing) are discharged for all inputs.",
+   note="Attempted, not claimed (did not discharge within the quick timeout, listed in the contract notes): every new shard gets exactly replicaFactor distinct replicas and the first replica is storageNodeIDs[(shard+start) % n] (the per-function facts replicaIndex in range / not first / injective ARE proved; the inductive loop invariant combining them is not). The event handlers of the state manager (onNodeFailure/onNodeStartup/initializeShardState) are not under contract yet: the statement's 'online exactly when a replica is alive' is decided only through ElectLeader's contract. math.rand is not modelled (fixedStartIndex >= 0 is required). Mathematical integers with explicit overflow obligations; sizes bounded by 10^6.",
+   design="4/C18"),
 }
 TECH = "contract-based deductive verification: //@ contracts on the real functions, VCs generated from go/ssa by govc, discharged by z3/cvc5"
 
